@@ -137,6 +137,12 @@ def family_options(m, tier, add_bench, open_mod, close_mod):
     add_bench(m, pm, 12, "through_module", form="bencher")
     close_mod(m, 8)
     close_mod(m, 4)
+    g = open_mod(m, path, 4, "r#loop", group={"display": "raw loop", "options": [("sample_count", "3"), ("sample_size", "2")]})
+    add_bench(m, g, 8, "inherits_from_raw_group", form="bencher")
+    pm = open_mod(m, g, 8, "r#mod")
+    add_bench(m, pm, 12, "deeper", form="bencher", options=[("sample_size", "1")])
+    close_mod(m, 8)
+    close_mod(m, 4)
     g = open_mod(m, path, 4, "zero", group={"options": [("sample_size", "2")]})
     add_bench(m, g, 8, "count_zero", form="bencher", options=[("sample_count", "0")])
     add_bench(m, g, 8, "size_zero", form="bencher", options=[("sample_size", "0")])
